@@ -42,6 +42,14 @@ func (p *P) walFreshDecode(rule string) {
 	}
 }
 
+func ep0(ap *ssa.Function) []Sink {
+	var ep []Sink
+	for _, fs := range fieldStores(ap, false, "logStat", "maxEpoch") {
+		ep = append(ep, Sink{fs.Store, "epoch bookkeeping"})
+	}
+	return ep
+}
+
 func c11(p *P) {
 	r := p.r
 	r.Explanation = "Static necessary conditions of WAL durability: (R1) Append's nil return is reachable only after rotate-check ≺ marshal ≺ write to the active file ≺ fsync, each error guarding the next step, and the per-file epoch bookkeeping happens after the rotation decision and after the fsync, on the file that received the entry; (R2) the reader appends an entry only on a successful decode, into a fresh variable, returns the accumulated prefix on EVERY exit after a successful open (a torn tail keeps what precedes it) together with the running max epoch over all decoded entries regardless of how the loop ended; (R3) every write-mode open is O_CREATE|O_EXCL without O_APPEND/O_TRUNC under a fresh time-stamped name; only rotate installs the active file; restart (hydrate) never re-opens an old file for writing; (R4) files are removed only in Purge, only from the closed-file list, only when maxEpoch < keepEpoch; kept files stay listed; (R5) flush: fsync ≺ close ≺ register the file's stat; (R6) exported methods hold the lock."
@@ -65,15 +73,46 @@ func c11(p *P) {
 			ep = append(ep, Sink{fs.Store, "epoch bookkeeping"})
 		}
 		ack := okReturns(ap)
-		p.before("C11.R1", ap, "rotation decision", rot, "marshal", mar)
+		inlineRot := len(rot) == 0 && p.c.Fn(walPkg+"maybeRotate") == nil
+		var rotD []Sink
+		if inlineRot {
+			// the rotation decision is written out in Append itself: rotate() is called directly
+			rotD = callSinks(ap, "rotation", walPkg+"rotate")
+			if len(rotD) == 0 {
+				r.Fail("C11.R1", "internal/writeaheadlog.WriteAheadLog.Append: rotation decision ≺ marshal", p.c.Pos(ap.Pos()), "Append neither calls maybeRotate nor rotate: no active file is ever installed")
+			} else {
+				p.notAfter("C11.R1", ap, "marshal", mar, "rotation", rotD)
+				p.notAfter("C11.R1", ap, "epoch bookkeeping", ep0(ap), "rotation", rotD)
+				inj := union(canonIs("", `^\$0\.active\.file$`, avNil), errFails("", walPkg+"rotate", "")).Match(ap)
+				sc := RunSCCP(ap, inj)
+				bad := ""
+				for _, w := range append(append([]Sink{}, wr...), okReturns(ap)...) {
+					if sc.Reachable(w.Instr) {
+						bad = p.c.InstrPos(w.Instr)
+					}
+				}
+				r.Check(bad == "" && len(inj) >= 2, "C11.R1", "Append: without an active file it must rotate (nothing written or acknowledged otherwise)", p.c.Pos(ap.Pos()), "write and ack unreachable when active.file == nil and rotate fails", "Append can write/acknowledge with no active file at "+bad)
+				p.guardedAfter("C11.R1", ap, okReturns(ap), errFails("rotation ok", walPkg+"rotate", ""), errFails("rotation ok (size known)", "os.File.Stat", ""))
+			}
+			rot = rotD
+		} else {
+			p.before("C11.R1", ap, "rotation decision", rot, "marshal", mar)
+		}
 		p.before("C11.R1", ap, "marshal", mar, "write to active file", wr)
 		p.before("C11.R1", ap, "write to active file", wr, "fsync", sy)
 		p.before("C11.R1", ap, "fsync", sy, "acknowledgement", ack)
-		p.before("C11.R1", ap, "rotation decision", rot, "epoch bookkeeping", ep)
+		if !inlineRot {
+			p.before("C11.R1", ap, "rotation decision", rot, "epoch bookkeeping", ep)
+		}
 		p.before("C11.R1", ap, "fsync", sy, "epoch bookkeeping", ep)
 		if len(ack) > 0 {
 			p.guarded("C11.R1", ap, ack,
-				errFails("rotation ok", walPkg+"maybeRotate", ""),
+				func() VM {
+					if inlineRot {
+						return errFails("marshal ok", "f3.walEntry.MarshalCBOR", "")
+					}
+					return errFails("rotation ok", walPkg+"maybeRotate", "")
+				}(),
 				errFails("marshal ok", "f3.walEntry.MarshalCBOR", ""),
 				errFails("write ok", "bytes.Buffer.WriteTo", ""),
 				errFails("fsync ok", "os.File.Sync", ""))
@@ -94,7 +133,7 @@ func c11(p *P) {
 			r.Fail("C11.R1", "Append: epoch bookkeeping present", p.c.Pos(ap.Pos()), "Append no longer records the entry's epoch for the active file — Purge could remove it")
 		}
 	}
-	if mr := p.fn("C11.R1", walPkg+"maybeRotate"); mr != nil {
+	if mr := p.c.Fn(walPkg + "maybeRotate"); mr != nil {
 		// a nil return from maybeRotate implies an active file exists
 		inj := canonIs("", `^\$0\.active\.file$`, avNil).Match(mr)
 		s := RunSCCP(mr, inj)
